@@ -21,7 +21,8 @@ Record snap := mkSnap {
   s_aview : list ((N * N) * (option aparams * option holding));   (* non-empty GetAssetParams / GetAssetHolding over U x A *)
   s_creators : list (N * N);           (* (asset, creator) for every asset of A that GetCreator finds *)
   s_txbytes : N;                       (* eval.blockTxBytes: not computed by the model (encoded sizes), judged by the oracle only *)
-  s_appobs : list (list N)             (* application rows, see [appobs_of] *)
+  s_appobs : list (list N);            (* application rows, see [appobs_of] *)
+  s_corrupt : bool                     (* eval.corruptedState *)
 }.
 
 Fixpoint table_eqb (a b : table) : bool :=
@@ -78,7 +79,8 @@ Definition snap_eqb (a b : snap) : bool :=
   plist_eqb (s_txids a) (s_txids b) && llist_eqb (s_leases a) (s_leases b) &&
   (s_txncount a =? s_txncount b) && (s_fees a =? s_fees b) && (s_payset a =? s_payset b) &&
   Bool.eqb (s_intra_ok a) (s_intra_ok b) && aview_eqb (s_aview a) (s_aview b) &&
-  plist_eqb (s_creators a) (s_creators b) && rows_eqb (s_appobs a) (s_appobs b).
+  plist_eqb (s_creators a) (s_creators b) && rows_eqb (s_appobs a) (s_appobs b) &&
+  Bool.eqb (s_corrupt a) (s_corrupt b).
 
 (* insertion sort of the lease map by key (the harness sorts the Go map the same way) *)
 Definition lease_lt (a b : (N * N) * N) : bool :=
@@ -130,7 +132,7 @@ Definition snap_of (I : ids) (ev : evalst) : snap :=
   mkSnap (table_of (id_U I) (id_APPS I) c) (modified c) (l_txids (c_top c))
          (lease_sort (l_leases (c_top c))) (l_txncount (c_top c)) (l_fees (c_top c))
          (N.of_nat (List.length (ev_payset ev))) true (aview_of (id_U I ++ map app_addr (id_APPS I)) (id_A I) c) (creators_of (id_A I) c) 0
-         (appobs_of (id_U I) (id_APPS I) c).
+         (appobs_of (id_U I) (id_APPS I) c) (ev_corrupt ev).
 
 (* ------------------------------------------------------------------ decoding *)
 Definition opt_bind {A B} (o : option A) (f : A -> option B) : option B :=
@@ -323,21 +325,33 @@ Definition dec_rows (t : term) : option (list (list N)) :=
 
 Definition dec_snap (t : term) : option snap :=
   match t with
-  | TL [tb; mods; TL txids; leases; tc; fees; ps; av; crs; tbytes; arows] =>
+  | TL [tb; mods; TL txids; leases; tc; fees; ps; av; crs; tbytes; arows; cor] =>
     tb' <-? dec_table tb ;; mods' <-? as_N_list mods ;; tx' <-? dec_txids_from 0 txids ;;
     ls' <-? dec_leases leases ;; tc' <-? as_N tc ;; fees' <-? as_N fees ;; ps' <-? as_N ps ;;
     av' <-? dec_aview av ;; crs' <-? dec_pairs crs ;; tbytes' <-? as_N tbytes ;; arows' <-? dec_rows arows ;;
-    Some (mkSnap tb' mods' (fst tx') ls' tc' fees' ps' (snd tx') av' crs' tbytes' arows')
+    cor' <-? as_N cor ;;
+    Some (mkSnap tb' mods' (fst tx') ls' tc' fees' ps' (snd tx') av' crs' tbytes' arows' (negb (cor' =? 0)))
   | _ => None
   end.
 
-Record gobs := mkGobs { g_txns : list txn; g_lsigfee : N; g_code : N; g_snap : snap }.
+(* the fault injected by the harness: none; a panic in the ledger's CheckDup while transaction i
+   of the loop is evaluated (reported only when it fired); the parent cow's Txids (1) or sdeltas
+   (2) map set to nil, which makes commitToParent panic when it first writes to it *)
+Inductive inject := INone | ILoop (i : nat) | ISab (which : N).
+Record gobs := mkGobs { g_txns : list txn; g_lsigfee : N; g_code : N; g_snap : snap; g_inject : inject }.
 
 Definition dec_group (t : term) : option gobs :=
   match t with
-  | TL [TL txs; lf; code; sn] =>
+  | TL [TL txs; lf; code; sn; inj] =>
     txs' <-? map_opt dec_txn txs ;; lf' <-? as_N lf ;; code' <-? as_N code ;; sn' <-? dec_snap sn ;;
-    Some (mkGobs txs' lf' code' sn')
+    inj' <-? (match inj with
+              | TZ 0%Z => Some INone
+              | TL [TS k; n] => n' <-? as_N n ;;
+                                if String.eqb k "loop" then Some (ILoop (N.to_nat n'))
+                                else if String.eqb k "sab" then Some (ISab n') else None
+              | _ => None
+              end) ;;
+    Some (mkGobs txs' lf' code' sn' inj')
   | _ => None
   end.
 
@@ -414,11 +428,30 @@ Definition base_of (k : blockcase) : base :=
   base_of_rows (k_brows k) (mkBase (k_base k) (k_basetx k) (k_counter k) (k_bassets k) [] [] []).
 
 (* generate+validate evaluator fed with every group; returns "all observations agree" *)
+(* where the injected fault makes the real code panic *)
+Definition ppoint_of (E : env) (ev : evalst) (g : gobs) : option ppoint :=
+  match g_inject g with
+  | INone => None
+  | ILoop i => Some (PLoop i)
+  | ISab w =>
+    if w =? 1 then Some (PCommit 1)     (* Txids: first write after MergeAccounts *)
+    else match g_txns g with
+         | [] => None
+         | _ => match group_body E (g_txns g) (g_lsigfee g) (child (ev_cow ev)) with
+                | (c1, Ok _) => match l_store (c_top c1) with [] => None | _ => Some (PCommit 5) end
+                | _ => None
+                end
+         end
+  end.
+
+Definition step_group (E : env) (ev : evalst) (g : gobs) : evalst * res unit :=
+  transaction_group_p E ev (g_txns g) (g_lsigfee g) (ppoint_of E ev g).
+
 Fixpoint replay_groups (E : env) (I : ids) (ev : evalst) (gs : list gobs) : bool * evalst :=
   match gs with
   | [] => (true, ev)
   | g :: r =>
-    let '(ev1, res) := transaction_group E ev (g_txns g) (g_lsigfee g) in
+    let '(ev1, res) := step_group E ev g in
     let code := match res with Ok _ => 0 | Err e => e end in
     if (code =? g_code g) && snap_eqb (snap_of I ev1) (g_snap g)
     then replay_groups E I ev1 r
@@ -436,6 +469,10 @@ Definition model_agrees (k : blockcase) : bool :=
   | Ok ev0 =>
     snap_eqb (snap_of (ids_of k) ev0) (k_start k) &&
     fst (replay_groups (env_of k true true) (ids_of k) ev0 (k_groups k)) &&
+    if ev_corrupt (snd (replay_groups (env_of k true true) (ids_of k) ev0 (k_groups k)))
+    then (* GenerateBlock refuses; nothing is committed *)
+      (k_endcode k =? E_CORRUPT) && table_eqb (k_final k) (k_base k)
+    else
     (* the committed block: eval.Eval in validate mode over the accepted groups *)
     match eval_block (env_of k true false) b (k_prevlvl k) (k_ru k) (accepted (k_groups k))
                      (k_expired k) (k_absent k) (k_proposer k) (k_payout k) with
@@ -504,8 +541,12 @@ Definition inner_fees (sure : bool) (g : list txn) : N :=
 (* one TransactionGroup call, judged on the observations before / after only *)
 Definition group_step_ok (sink : N) (before : snap) (g : gobs) : bool :=
   let after := g_snap g in
-  if g_code g =? 0 then
+  if s_corrupt before then
+    (* a corrupted evaluator refuses and changes nothing *)
+    (g_code g =? E_CORRUPT) && snap_eqb after before && (s_txbytes after =? s_txbytes before)
+  else if g_code g =? 0 then
     let n := N.of_nat (List.length (g_txns g)) in
+    negb (s_corrupt after) &&
     s_intra_ok after &&
     (s_payset after =? s_payset before + n) &&
     (s_txncount before + n + inner_count true (g_txns g) <=? s_txncount after) &&
@@ -515,7 +556,9 @@ Definition group_step_ok (sink : N) (before : snap) (g : gobs) : bool :=
     (s_fees after <=? s_fees before + fees_of sink (g_txns g) + inner_fees false (g_txns g)) &&
     leases_ok (s_leases before) (s_leases after) (g_txns g) &&
     (s_txbytes before <? s_txbytes after)
-  else snap_eqb after before && (s_txbytes after =? s_txbytes before).
+  else if s_corrupt after then true     (* reported failed and marked corrupted: unusable from here on *)
+  else (* reported failed, still usable: nothing may have changed *)
+    snap_eqb after before && (s_txbytes after =? s_txbytes before).
 
 Fixpoint groups_ok (sink : N) (before : snap) (gs : list gobs) : bool :=
   match gs with
@@ -523,7 +566,12 @@ Fixpoint groups_ok (sink : N) (before : snap) (gs : list gobs) : bool :=
   | g :: r => group_step_ok sink before g && groups_ok sink (g_snap g) r
   end.
 
-Definition spec_ok_c19 (k : blockcase) : bool := groups_ok (k_sink k) (k_start k) (k_groups k).
+Definition last_snap (k : blockcase) : snap := last (map g_snap (k_groups k)) (k_start k).
+
+(* ... and a corrupted evaluator produces no block *)
+Definition spec_ok_c19 (k : blockcase) : bool :=
+  groups_ok (k_sink k) (k_start k) (k_groups k) &&
+  (negb (s_corrupt (last_snap k)) || (k_endcode k =? E_CORRUPT)).
 
 (* a rejected group counts when the model says the child cow had been written to before the
    failure (so there was something to roll back) *)
@@ -531,7 +579,7 @@ Fixpoint dirty_rejects (E : env) (ev : evalst) (gs : list gobs) : N :=
   match gs with
   | [] => 0
   | g :: r =>
-    let '(ev1, res) := transaction_group E ev (g_txns g) (g_lsigfee g) in
+    let '(ev1, res) := step_group E ev g in
     let d := match res with
              | Ok _ => 0
              | Err _ =>
@@ -582,7 +630,7 @@ Definition snap_diff (a b : snap) : term :=
       tb (plist_eqb (s_txids a) (s_txids b)); tb (llist_eqb (s_leases a) (s_leases b));
       tb (s_txncount a =? s_txncount b); tb (s_fees a =? s_fees b); tb (s_payset a =? s_payset b);
       tb (aview_eqb (s_aview a) (s_aview b)); tb (plist_eqb (s_creators a) (s_creators b));
-      tb (rows_eqb (s_appobs a) (s_appobs b));
+      tb (rows_eqb (s_appobs a) (s_appobs b)); tb (Bool.eqb (s_corrupt a) (s_corrupt b));
       TL (map (fun r => TL (map tn r)) (s_appobs a));
       TL (map (fun e => let x := snd e in
                         TL [tn (fst e); tn (a_algos x); tn (a_rbase x); tn (a_rewarded x); tn (a_auth x); tb (a_elig x);
@@ -602,13 +650,13 @@ Definition model_obs (k : blockcase) : term :=
     let fix go (ev : evalst) (gs : list gobs) : list term :=
         match gs with
         | [] => []
-        | g :: r => let '(ev1, res) := transaction_group (env_of k true true) ev (g_txns g) (g_lsigfee g) in
+        | g :: r => let '(ev1, res) := step_group (env_of k true true) ev g in
                     tn (match res with Ok _ => 0 | Err e => e end) :: go ev1 r
         end in
     let fix first_bad (n : N) (ev : evalst) (gs : list gobs) : term :=
         match gs with
         | [] => TS "none"
-        | g :: r => let '(ev1, res) := transaction_group (env_of k true true) ev (g_txns g) (g_lsigfee g) in
+        | g :: r => let '(ev1, res) := step_group (env_of k true true) ev g in
                     if snap_eqb (snap_of (ids_of k) ev1) (g_snap g) then first_bad (n + 1) ev1 r
                     else TL [tn n; snap_diff (snap_of (ids_of k) ev1) (g_snap g)]
         end in
